@@ -331,14 +331,25 @@ func writeLinkEvents(dir string, opts GlobalOptions, eventType string, edges []s
 }
 
 func createTask(dir string, opts GlobalOptions, epicID string, isEpic bool, title, body string) (createOutput, error) {
-	eventsPath := getEventsPath(dir)
-	lockPath := filepath.Join(dir, "lock")
-	return createTaskWithDir(dir, opts, lockPath, eventsPath, epicID, isEpic, title, body)
+	return createTaskWithUpdates(dir, opts, epicID, isEpic, title, body, nil, "")
 }
 
-func createTaskWithDir(dir string, opts GlobalOptions, lockPath, eventsPath, epicID string, isEpic bool, title, body string) (createOutput, error) {
+// createTaskWithUpdates creates an item and, in the same lock section, applies the
+// follow-up updates (state, claim, result attachment) given at creation. If any of them
+// is refused nothing is written.
+func createTaskWithUpdates(dir string, opts GlobalOptions, epicID string, isEpic bool, title, body string, updates map[string]string, agentID string) (createOutput, error) {
+	eventsPath := getEventsPath(dir)
+	lockPath := filepath.Join(dir, "lock")
+	return createTaskWithDir(dir, opts, lockPath, eventsPath, epicID, isEpic, title, body, updates, agentID)
+}
+
+func createTaskWithDir(dir string, opts GlobalOptions, lockPath, eventsPath, epicID string, isEpic bool, title, body string, updates map[string]string, agentID string) (createOutput, error) {
 	var output createOutput
-	err := withLock(lockPath, syscall.LOCK_EX, func() error {
+	rest, withResult, resultSummary, resultPath, err := splitResultUpdates(updates)
+	if err != nil {
+		return createOutput{}, err
+	}
+	err = withLock(lockPath, syscall.LOCK_EX, func() error {
 		graph, err := loadGraph(dir)
 		if err != nil {
 			return err
@@ -381,7 +392,22 @@ func createTaskWithDir(dir string, opts GlobalOptions, lockPath, eventsPath, epi
 		if err != nil {
 			return err
 		}
-		if err := appendEvents(eventsPath, []Event{event}); err != nil {
+		events := []Event{event}
+		state := stateTodo
+		if withResult || len(rest) > 0 {
+			// Validate the follow-up updates against the item as it will exist.
+			created := &Task{ID: id, UUID: uuid, EpicID: payload.EpicID, IsEpic: isEpic, State: stateTodo, Title: title, Body: body, CreatedAt: now, UpdatedAt: now}
+			more, err := buildUpdateEvents(graph, filepath.Dir(dir), created, rest, withResult, resultSummary, resultPath, agentID, now)
+			if err != nil {
+				return err
+			}
+			events = append(events, more...)
+			// Report the state the item ends up in, as a reader will see it.
+			if replayed, err := replayEvents(events); err == nil && replayed.Tasks[id] != nil {
+				state = replayed.Tasks[id].State
+			}
+		}
+		if err := appendEvents(eventsPath, events); err != nil {
 			return err
 		}
 		kind := "task"
@@ -393,7 +419,7 @@ func createTaskWithDir(dir string, opts GlobalOptions, lockPath, eventsPath, epi
 			ID:        id,
 			UUID:      uuid,
 			EpicID:    payload.EpicID,
-			State:     stateTodo,
+			State:     state,
 			Title:     title,
 			Body:      body,
 			CreatedAt: payload.CreatedAt,
@@ -404,6 +430,28 @@ func createTaskWithDir(dir string, opts GlobalOptions, lockPath, eventsPath, epi
 		return createOutput{}, err
 	}
 	return output, nil
+}
+
+// splitResultUpdates separates the result attachment keys from the field updates.
+// result.path and result.summary must be given together.
+func splitResultUpdates(updates map[string]string) (rest map[string]string, withResult bool, summary, path string, err error) {
+	rest = make(map[string]string, len(updates))
+	for k, v := range updates {
+		rest[k] = v
+	}
+	path, hasPath := rest["result.path"]
+	summary, hasSummary := rest["result.summary"]
+	if hasPath || hasSummary {
+		if !hasPath {
+			return nil, false, "", "", errors.New("result.summary requires result.path=")
+		}
+		if !hasSummary {
+			return nil, false, "", "", errors.New("result.path requires result.summary=")
+		}
+		delete(rest, "result.path")
+		delete(rest, "result.summary")
+	}
+	return rest, hasPath, summary, path, nil
 }
 
 // ResultEvidence holds evidence metadata captured when attaching a result.
